@@ -224,6 +224,30 @@ class Ctx:
                     signal.alarm(max(1, int(remaining - (time.monotonic() - t0))))
 
 
+def repeat_call(ctx, monitor, fn, args, names, sig=None, equal=None):
+    """History monitor for pure functions: call fn twice with the SAME argument objects.
+
+    The caller's arguments must be bit-identical afterwards and the second result must equal the first (a function that
+    edits e.g. an index array in place answers the second, identical-looking call differently)."""
+    from . import snap
+
+    before = [snap.digest(a) for a in args]
+    first = ctx.call(fn, *args)
+    if first is FAILED:
+        return FAILED
+    changed = [names[i] for i, a in enumerate(args) if snap.digest(a) != before[i]]
+    fname = getattr(fn, "__name__", "fn")
+    ctx.check(monitor, not changed, sig=(fname, "args-unchanged") + tuple(sig or ()), nt=True, mech=f"{fname}:modifies-caller-argument[{','.join(changed) or '-'}]",
+              detail={"function": fname, "modified": changed})
+    second = ctx.call(fn, *args)
+    if second is FAILED:
+        ctx.check(monitor, False, sig=(fname, "second-call") + tuple(sig or ()), nt=True, mech=f"{fname}:second-identical-call-fails", detail={"function": fname, "modified": changed})
+        return first
+    same = equal(first, second) if equal else (np.shape(first) == np.shape(second) and bool(np.array_equal(np.asarray(first), np.asarray(second))))
+    ctx.check(monitor, same, sig=(fname, "second-call") + tuple(sig or ()), nt=True, mech=f"{fname}:second-identical-call-differs", detail={"function": fname, "modified": changed})
+    return first
+
+
 def _raised_inside_numerical_solver(exc):
     """True when the innermost frame of the traceback is inside cvxopt's numerical core (e.g. ValueError 'math domain error'
     from a square root in its step computation): an instance-level solver failure, not a property of the library under test."""
